@@ -633,3 +633,61 @@ func SyntaxErrorAlwaysRecords(p *load.Prog, r *oblig.Report, rule string) {
 		r.OK(rule, construct, p.Pos(store.Pos()), "store-dominates-returns", "every path records the error")
 	}
 }
+
+// ElementTypeKept (C01.6): in ExitConditionParameter the element type of a container parameter is
+// appended to GenericTypes under nil tests only (the container / element tokens being present); a
+// condition on the VALUE of the type name (a range of enum values, a table lookup) drops the element
+// type for some spellings the grammar accepts, and the printer then has no element type to print.
+func ElementTypeKept(p *load.Prog, r *oblig.Report, rule string) {
+	fn := p.Method("transformer", "OpenFgaDslListener", "ExitConditionParameter")
+	construct := "element-type-kept:ExitConditionParameter"
+	if fn == nil {
+		r.Unknown(rule, construct, "-", "ExitConditionParameter not found")
+		return
+	}
+	n := 0
+	for _, b := range fn.Blocks {
+		for _, in := range b.Instrs {
+			st, ok := in.(*ssa.Store)
+			if !ok {
+				continue
+			}
+			fa, ok := st.Addr.(*ssa.FieldAddr)
+			if !ok || fieldNameOf(fa.X.Type(), fa.Field) != "GenericTypes" {
+				continue
+			}
+			call, ok := st.Val.(*ssa.Call)
+			if !ok {
+				continue // the empty literal
+			}
+			if bi, isB := call.Common().Value.(*ssa.Builtin); !isB || bi.Name() != "append" {
+				continue
+			}
+			n++
+			bad := ""
+			for _, ce := range DominatingConds(b) {
+				bo, isBin := ce.Cond.(*ssa.BinOp)
+				nilTest := false
+				if isBin && (bo.Op == token.EQL || bo.Op == token.NEQ) {
+					if c, ok := bo.Y.(*ssa.Const); ok && c.IsNil() {
+						nilTest = true
+					}
+					if c, ok := bo.X.(*ssa.Const); ok && c.IsNil() {
+						nilTest = true
+					}
+				}
+				if !nilTest {
+					bad = stripUnique(AccessPath(ce.Cond))
+				}
+			}
+			if bad != "" {
+				r.Bad(rule, construct, p.Pos(st.Pos()), "the element type is stored only when "+bad+" holds — a condition on a value, not on the presence of the tokens: for the type names it excludes, list<T> / map<T> lose their element type and the model can no longer be printed")
+			} else {
+				r.OK(rule, construct, p.Pos(st.Pos()), "nil-tests-only", "the append of the element type depends only on the presence of parse-tree nodes")
+			}
+		}
+	}
+	if n == 0 {
+		r.Unknown(rule, construct, p.Pos(fn.Pos()), "no append to GenericTypes found in ExitConditionParameter")
+	}
+}
